@@ -431,6 +431,10 @@ class Resolver:
             if q in self.m.functions:
                 fn = self.m.functions[q]
                 rt = self.anno(fn.module, fn.node.returns)
+                if rt[0] == "callable":
+                    mt = self.returned_method(fn)
+                    if mt is not None:
+                        return mt
                 return rt if rt != UNK else self.specialised_return(fn, e, fi, env)
             return UNK
         if isinstance(f, ast.Attribute):
@@ -514,6 +518,26 @@ class Resolver:
             if q in self.m.classes:
                 return ("inst", q)
         return UNK
+
+    def returned_method(self, fn: FuncInfo) -> Optional[tuple]:
+        """A selector function annotated `-> Callable[...]` whose every return is the same-named method of classes in one
+        hierarchy: the ("method", owner, name) type of the most general owner (calls resolve by class-hierarchy analysis)."""
+        if isinstance(fn.node, ast.Lambda):
+            return None
+        env = self.env(fn)
+        ts = []
+        for r in walk_no_nested(fn.node):
+            if isinstance(r, ast.Return) and r.value is not None:
+                t = self.type_of(r.value, fn, env)
+                if t[0] != "method":
+                    return None
+                ts.append(t)
+        if not ts or len({t[2] for t in ts}) != 1:
+            return None
+        for t in ts:
+            if all(self.m.is_subclass(u[1][1], t[1][1]) for u in ts):
+                return ("method", ("type", t[1][1]) if all(u[1][0] == "type" for u in ts) else t[1], t[2])
+        return None
 
     def specialised_return(self, callee: FuncInfo, e: ast.Call, fi: FuncInfo, env) -> tuple:
         """Return type of a callee annotated `Any` (or not at all) that is handed a package function at this call site:
